@@ -49,6 +49,14 @@ next_outcome(void)
   return -1;
 }
 
+int __wrap_sem_post(sem_t* s);
+int __wrap_sem_init(sem_t* s, int pshared, unsigned value);
+int __wrap_sem_destroy(sem_t* s);
+static int      seen_pshared = -1;
+static unsigned seen_value;
+int __wrap_sem_post(sem_t* s) { (void)s; return next_outcome(); }
+int __wrap_sem_init(sem_t* s, int pshared, unsigned value) { (void)s; seen_pshared = pshared; seen_value = value; return next_outcome(); }
+int __wrap_sem_destroy(sem_t* s) { (void)s; return next_outcome(); }
 int __wrap_sem_wait(sem_t* s);
 int __wrap_sem_trywait(sem_t* s);
 int __wrap_sem_timedwait(sem_t* s, const struct timespec* t);
@@ -126,6 +134,20 @@ main(int argc, char** argv)
       errno = V_ENTRY_ERRNO;
       const ZixStatus st = zix_sem_wait(&sem);
       printf("st=%d calls=%d%s\n", (int)st, calls, nonblocking_calls ? " SPEC-FAIL:wait-used-nonblocking-call" : "");
+    } else if (!strcmp(tok[0], "post") && n == 2) {
+      load(n, tok, 1);
+      const ZixStatus st = zix_sem_post(&sem);
+      printf("st=%d calls=%d\n", (int)st, calls);
+    } else if (!strcmp(tok[0], "destroy") && n == 2) {
+      load(n, tok, 1);
+      const ZixStatus st = zix_sem_destroy(&sem);
+      printf("st=%d calls=%d\n", (int)st, calls);
+    } else if (!strcmp(tok[0], "init") && n == 3) {
+      load(n, tok, 2);
+      ZixSem other;
+      seen_pshared = -1;
+      const ZixStatus st = zix_sem_init(&other, (unsigned)strtoul(tok[1], NULL, 10));
+      printf("st=%d calls=%d pshared=%d value=%u\n", (int)st, calls, seen_pshared, seen_value);
     } else if (!strcmp(tok[0], "try")) {
       load(n, tok, 1);
       errno = V_ENTRY_ERRNO;
